@@ -183,6 +183,7 @@ EvFind(S, e) ==
         S5 == Chk(S4, ~S.shut, V("P_X06_h", "find-after-shutdown", t, "", e.t, 0, 0))
         new == {DialLaw(S, p, e.t) : p \in {q \in SeqSet(e.peers) : ~\E x \in S.exp : x.p = q /\ x.at = e.t}}
     IN  [S5 EXCEPT !.find[t] = [id |-> e.id, start |-> e.t], !.lastStart[t] = e.t, !.exp = @ \cup new,
+                   !.apiPre = @ \/ (t = E.tp /\ S.apiAt[t] = e.t),
                    \* the search may be the one a waiting publish asked for; when somebody else may have asked at the same instant
                    \* (poll, Subscribe / Relay, another publish) the publish may as well have been answered at once
                    !.pubs = [m \in DOMAIN @ |-> IF m \in boot
@@ -323,7 +324,7 @@ EndChecks(S) ==
                      ELSE {}
                  : m \in run}
         \* X06.c: Subscribe / Relay ask for a search of the topic (Topic.Subscribe / Topic.Relay call Discover first)
-        vs == IF cf.disc /\ ~S.shut /\ E.a \in {"subscribe", "relay"} /\ ~S.apiPre /\ S.lastStart[E.tp] # S.apiAt[E.tp]
+        vs == IF cf.disc /\ ~S.shut /\ E.a \in {"subscribe", "relay"} /\ ~S.apiPre
                 THEN {V("P_X06_c", "subscribe-without-search", E.tp, "", now, S.lastStart[E.tp], S.apiAt[E.tp])} ELSE {}
         vh == IF S.shut /\ nfind # 0 THEN {V("P_X06_h", "search-in-flight-after-shutdown", "", "", now, nfind, 0)} ELSE {}
         vd == IF E.i = 1 /\ cf.custom /\ S.factory # 1 THEN {V("P_X06_d", "connector-factory", "", "", now, S.factory, 1)} ELSE {}
